@@ -13,6 +13,7 @@ symmetric eigensolver (see MANIFEST note of checks/c02.py).
 import SharkVerif.Lemmas.LinSolveChol
 import SharkVerif.Lemmas.LinSolveLU
 import SharkVerif.Lemmas.LinSolveUnique
+import SharkVerif.Lemmas.LinSolveLUSolve
 namespace SharkVerif.C02
 open SharkVerif.LinSolve
 
@@ -387,5 +388,34 @@ theorem inv_prod_is_solve_spd (r : Rat → Rat) (n : Nat) (A : Mat) (b : Vec) (h
       have := solve_spd_correct r n A (fun i' => ident i' k) hr h0 hsym i hi
       unfold mul; unfold mulVec at this; exact this) (fun _ _ => rfl)]
   exact mulVec_ident n b hi
+
+/-- **`solve(A, b, indefinite_full_rank(), left)`** (= `pivoting_lu_decomposition::solve`:
+`getrf`, `swap_rows(P, b)`, `trsv<unit_lower>`, `trsv<upper>`): for every size and every matrix on
+which `getrf` does not throw, the returned vector satisfies `A x = b` exactly. -/
+theorem solve_lu_correct (n : Nat) (A : Mat) (b : Vec) (h : (getrf n A).fail = false) :
+    ∀ i, i < n → mulVec n A (fun k => vget (luSolveLeftArr n (getrf n A) b) k) i = b i := by
+  have side : LUSide n n (getrf n A) := getrf_side n A n (Nat.le_refl n) h
+  set s := getrf n A with hs
+  set F : Mat := fun i j => mget s.M i j with hF
+  set pb : Vec := fun i => b (permOf s.P n i) with hpb
+  have hreg1 : triSingular ⟨false, true⟩ n F = false := by simp [triSingular]
+  have hreg2 : triSingular ⟨true, false⟩ n F = false :=
+    (regular_iff_not_singular _ n F).mp (fun _ j hj => side.2 j hj)
+  set y : Vec := trsv ⟨false, true⟩ true n F pb with hy
+  set x : Vec := trsv ⟨true, false⟩ true n F y with hx
+  have hxeq : (fun k => vget (luSolveLeftArr n s b) k) = x := rfl
+  rw [hxeq]
+  have hPA := solve_eq_of_factorisation n (fun i k => A (permOf s.P n i) k)
+    (triPart ⟨false, true⟩ F) (triPart ⟨true, false⟩ F) pb x y
+    (getrf_correct n A h)
+    (trsv_correct_left ⟨false, true⟩ n F pb hreg1)
+    (trsv_correct_left ⟨true, false⟩ n F y hreg2)
+  intro i hi
+  have hj : permInvOf s.P n i < n := permInvOf_lt s.P n n (Nat.le_refl n) side.1 i hi
+  have hσ : permOf s.P n (permInvOf s.P n i) = i := permOf_permInvOf s.P n i
+  have := hPA (permInvOf s.P n i) hj
+  unfold mulVec at this ⊢
+  simp only [hpb, hσ] at this
+  exact this
 
 end SharkVerif.C02
